@@ -166,6 +166,10 @@ func (g *Gateway) subscriptionHandler(w http.ResponseWriter, r *http.Request) {
 				return
 			}
 
+			// an id that is still in use: the new operation takes the place of the old one, which is
+			// stopped like by a stop message (left in place it could not be reached any more)
+			subDict.Clean(subMsg.ID)
+
 			subDict[subMsg.ID] = subEntry
 
 			go subEntry.Listen(conn)
